@@ -453,6 +453,21 @@ function isParseFailure(e) { return e instanceof Error && typeof e.message === '
 function body(input) {
   const viol = [];
   const V = (prop, what) => viol.push({ prop, what, input: show(input) });
+  // replay on the un-instrumented runtime: there are no Proxy traps, so a mutation of the input is observed by comparing a rendering taken before
+  const before = job.concrete !== undefined ? show(input) : null;
+  // ... and by the identity of every nested container (replacing a nested object by a stripped copy that renders the same is a mutation too)
+  const refs = [];
+  const walk = (x, path, d) => { if (d > 5 || !isObj(x) || $S.isBox(x) || $S.isWildcard(x)) return; refs.push([path, x]); if (Array.isArray(x)) x.forEach((e, i) => walk(e, path.concat([i]), d + 1)); else if (isPlain(x)) for (const k of Object.keys(x)) walk(x[k], path.concat([k]), d + 1); };
+  if (before !== null) walk(input, [], 0);
+  try { return bodyInner(input, viol, V); } finally {
+    if (before !== null && props.includes('C03')) {
+      let moved = null;
+      for (const [path, ref] of refs) { let cur = input; for (const k of path) cur = cur == null ? undefined : cur[k]; if (cur !== ref) { moved = path; break; } }
+      if (show(input) !== before || moved !== null) viol.push({ prop: 'C03', what: `the input was mutated: ${before} became ${show(input)}${moved !== null ? ' (the container at ' + JSON.stringify(moved) + ' was replaced)' : ''}`, input: before });
+    }
+  }
+}
+function bodyInner(input, viol, V) {
   for (const opts of optionSets) {
     const tag = JSON.stringify(opts);
     let v, sp, threw = null, parsed, parseThrew = null;
